@@ -60,10 +60,20 @@ def main(argv=None):
     t0 = time.time()
     not_run = 0
 
+    cow_mod = int(os.environ.get("VERIF_PANDAS_COW_EVERY", getattr(mod, "PANDAS_COW_EVERY", 5)) or 0)
+
     def run_one(k, case):
         ctx.begin_case(k, case)
         try:
-            mod.run(ctx, case)
+            if cow_mod and k >= 0 and k % cow_mod == cow_mod - 1:
+                # pandas' copy-on-write mode (an option of pandas 2, the only mode of pandas 3): same answers expected
+                import pandas as pd
+
+                ctx.state("pandas.copy_on_write", True)
+                with pd.option_context("mode.copy_on_write", True):
+                    mod.run(ctx, case)
+            else:
+                mod.run(ctx, case)
         except Exception as e:  # harness error, not a verdict
             ctx.counters["harness.error"] += 1
             if len(ctx.notes) < 20:
